@@ -111,15 +111,24 @@ impl SwiftField for Field53B {
         //   - Starts with '/' -> party_identifier
         //   - Looks like BIC (8-11 uppercase alphanumeric) -> party_identifier
         //   - Otherwise -> location
-        if lines.len() >= 2 {
+        // The identifier with its leading slash is /1!a/34x at the longest
+        let id_max = |line: &str| if line.starts_with('/') { 37 } else { 34 };
+        for line in &lines {
+            parse_swift_chars(line, "Field53B line")?;
+        }
+        if lines.len() > 2 {
+            return Err(ParseError::InvalidFormat {
+                message: "Field53B has more lines than party identifier and location".to_string(),
+            });
+        }
+        if lines.len() == 2 {
             // Two lines: first is party_identifier, second is location
-            if !lines[0].is_empty() {
-                party_identifier =
-                    Some(parse_max_length(lines[0], 34, "Field53B party_identifier")?);
-            }
-            if !lines[1].is_empty() {
-                location = Some(parse_max_length(lines[1], 35, "Field53B location")?);
-            }
+            party_identifier = Some(parse_max_length(
+                lines[0],
+                id_max(lines[0]),
+                "Field53B party_identifier",
+            )?);
+            location = Some(parse_max_length(lines[1], 35, "Field53B location")?);
         } else if lines.len() == 1 && !lines[0].is_empty() {
             let line = lines[0];
 
@@ -131,7 +140,11 @@ impl SwiftField for Field53B {
                         .all(|c| c.is_ascii_uppercase() || c.is_ascii_digit()));
 
             if is_party_identifier {
-                party_identifier = Some(parse_max_length(line, 34, "Field53B party_identifier")?);
+                party_identifier = Some(parse_max_length(
+                    line,
+                    id_max(line),
+                    "Field53B party_identifier",
+                )?);
             } else {
                 location = Some(parse_max_length(line, 35, "Field53B location")?);
             }
